@@ -37,6 +37,9 @@ func AllocCheck()                  {}
 func MapCandidates(ids []uint32)   {}
 func AllocSampling(small, large int) {}
 func Note(s string)                {}
+func Sources(b []byte) string      { panic("engine") }
+func Reseeded() bool               { panic("engine") }
+func NonConstant(b []byte) bool    { panic("engine") }
 func Yield(tag string)             {}
 func Quiesce()                     {}
 func SwitchBudget(n int)           {}
